@@ -461,3 +461,17 @@ package filesystem
 //@   ensures failure-is-reported: called(keyRingTX.Rollback) ==> err != nil
 //@   ensures success-means-nothing-failed: err == nil ==> !called(keyRingTX.Rollback) && (called(keyRingTX.Apply) ==> ret(keyRingTX.Apply)[0] == nil)
 //@   ensures the-failure-is-the-apply-error: err != nil ==> called(keyRingTX.Apply) && err == ret(keyRingTX.Apply)[0]
+
+// ---- the import transaction (C18): installing an imported ring replaces the keys *and* the current marker by those of the
+// bundle, whatever they are (a bundle whose ring has no current key leaves the target without one, it does not keep the
+// target's old marker pointing into the new keys); rolling back restores both.
+//@ func (tx *txSetKeys) Apply(ring *KeyRing) (err error)
+//@   props C18 C08
+//@   safety
+//@   ensures keys-and-marker-of-the-bundle: err == nil && sameslice(ring.data.Keys, tx.newKeys) && ring.data.Current == tx.current
+//@   ensures old-state-kept-for-rollback: sameslice(tx.oldKeys, old(ring.data.Keys)) && tx.oldCurrent == old(ring.data.Current)
+
+//@ func (tx *txSetKeys) Rollback(ring *KeyRing) (err error)
+//@   props C18 C08
+//@   safety
+//@   ensures restores-both: err == nil && sameslice(ring.data.Keys, tx.oldKeys) && ring.data.Current == tx.oldCurrent
